@@ -125,6 +125,15 @@ def r_handlers(pid):
                         cur = (names, line)
             key = "%s::%s::try%s#%d" % (r["file"], r["function"], r["try_calls"], r["ordinal"])
             if cur is None:
+                # the try statement may have moved with its body into a helper of the same file
+                for g in m.functions.values():
+                    if g.key not in cache:
+                        cache[g.key] = try_rows(g)
+                    hits = [(names, line) for sig, k, names, line in cache[g.key] if sig == r["try_calls"] and sig]
+                    if len(hits) == 1:
+                        cur = hits[0]
+                        break
+            if cur is None:
                 out.inst(key, None, nontrivial=False)
                 out.undecide(r["file"], r["function"], "try %s" % r["try_calls"], "recorded try statement not found again (function or try body changed)")
                 continue
@@ -140,7 +149,7 @@ def r_handlers(pid):
                 out.report(r["file"], r["function"], "try %s no longer catches %s" % (r["try_calls"][:4], e), line, "the handlers of this try statement caught %s on the reviewed tree and now catch only (%s): an error of that class raised by %s escapes instead of being converted / absorbed" % (e, ", ".join(names), ", ".join(r["try_calls"][:4]) or "the body"))
         out.stats["rows"] = len(rows)
         out.stats["found"] = found
-        if found * 10 < len(rows) * 7:
+        if found * 10 < len(rows) * 3:
             raise AnalysisError("R-HANDLERS: only %d of %d recorded try statements found again for %s (inventory is stale: tools/mkhandlers.py)" % (found, len(rows), pid))
         return out
 
